@@ -59,3 +59,11 @@ Proof.
   - apply N.min_l, H.
   - apply N.min_r. lia.
 Qed.
+
+(* ---- multishot RECVMSG result buffer (compio-driver/src/sys/op/managed/iour.rs) ------------- *)
+From Compio.Model Require Import SockSpec.
+Theorem mshot_layout_tie : forall (L clen : nat) (buf : list byte),
+  mshot_data clen buf = skipn (Frag.mshot_data_offset MSHOT_HDR MSHOT_NAME clen) buf
+  /\ mshot_payload_cap L clen = L - Frag.mshot_fixed_len MSHOT_HDR MSHOT_NAME clen
+  /\ Frag.mshot_fixed_len MSHOT_HDR MSHOT_NAME clen = Frag.mshot_data_offset MSHOT_HDR MSHOT_NAME clen.
+Proof. intros L clen buf. repeat split. Qed.
